@@ -21,6 +21,7 @@ import json, os, re
 from vlib import *
 
 UNK = 888888
+LITERAL_VALS = {b"false": 9001, b"0": 9002, b"no": 9003, b"FALSE": 9004, b"1": 9005, b"bootstrapped": 9006}
 CTL = ("FORK", "LAGSTART", "CATCHUP")      # control ops: not commands, not queries
 KEYNAMES = {"deployment-id": 1, "launched-flag": 2, "bootstrapped-flag": 3, "election-key": 4, "regions-key": 5}
 
@@ -261,6 +262,8 @@ class Engine:
             return 0
         if b == b"true":
             return 1
+        if b in LITERAL_VALS:
+            return LITERAL_VALS[b]
         h = b.hex()
         if h in self.reg_bytes:
             return self.reg_bytes[h]
